@@ -2125,3 +2125,163 @@ B("S12-C04-replayed-clear-only-clears-active-memtable", "C04", "C04:R-C04.1:db::
   "                        keyspace.tree.clear().ok();", "                        keyspace.tree.clear_active_memtable();")
 B("S13-C10-watermark-from-active-memtable-only", "C10", "C10:R-C10.3:supervisor::Supervisor::build_seqno_map", "src/supervisor.rs",
   "if let Some(lsn) = keyspace.tree.get_highest_memtable_seqno() {", "if let Some(lsn) = keyspace.tree.active_memtable().get_highest_seqno() {")
+
+# ======================================================================== second wave of own mutants (probing sub-clauses)
+B("C05-clone-registers-other-instant", "C05", "C05:R-C05.1:snapshot_tracker::SnapshotTracker::clone_snapshot", TRACKER,
+  """        self.data
+            .entry(nonce.instant)
+            .and_modify(|x| {
+                *x += 1;
+            })
+            .or_insert(1);
+
+        SnapshotNonce::new(nonce.instant, self.clone())""",
+  """        self.data
+            .entry(self.seqno.get())
+            .and_modify(|x| {
+                *x += 1;
+            })
+            .or_insert(1);
+
+        SnapshotNonce::new(nonce.instant, self.clone())""")
+B("C05-close-unlocked-alter", "C05", "C05:R-C05.4:snapshot_tracker::SnapshotTracker::close_raw", TRACKER,
+  """        let lock = self.gc_lock.read().expect("lock is poisoned");
+
+        self.data.alter(&instant, |_, v| v.saturating_sub(1));
+
+        let freed = self
+            .freed_count
+            .fetch_add(1, std::sync::atomic::Ordering::AcqRel)
+            + 1;
+
+        drop(lock);""",
+  """        let lock = self.gc_lock.read().expect("lock is poisoned");
+
+        let freed = self
+            .freed_count
+            .fetch_add(1, std::sync::atomic::Ordering::AcqRel)
+            + 1;
+
+        drop(lock);
+
+        self.data.alter(&instant, |_, v| v.saturating_sub(1));""")
+B("C07-fetch_update-no-read-mark", "C07", "C07:R-C07.1:tx::optimistic::write_tx::WriteTransaction::fetch_update", OWT,
+  """        let prev = self.inner.fetch_update(keyspace, key.clone(), f)?;
+
+        self.cm.mark_read(keyspace.id, key.clone());
+        self.cm.mark_conflict(keyspace.id, key);""",
+  """        let prev = self.inner.fetch_update(keyspace, key.clone(), f)?;
+
+        self.cm.mark_conflict(keyspace.id, key);""")
+B("C07-range-records-narrower", "C07", "C07:R-C07.1:<tx::optimistic::write_tx::WriteTransaction as readable::Readable>::range", OWT,
+  """        self.cm.mark_range(keyspace.as_ref().id, (start, end));
+
+        self.inner.range(keyspace, range)""",
+  """        self.cm.mark_range(keyspace.as_ref().id, (start.clone(), start));
+        let _ = end;
+
+        self.inner.range(keyspace, range)""")
+B("C08-overlay-of-other-keyspace", "C08", "C08:R-C08.1:<tx::write_tx::BaseTransaction as readable::Readable>::prefix", TXW,
+  """        let iter = keyspace.tree.prefix(
+            prefix,
+            self.nonce.instant,
+            self.memtables
+                .get(keyspace)
+                .cloned()
+                .map(|mt| (mt, self.seqno)),
+        );""",
+  """        let iter = keyspace.tree.prefix(
+            prefix,
+            self.nonce.instant,
+            self.memtables
+                .values()
+                .next()
+                .cloned()
+                .map(|mt| (mt, self.seqno)),
+        );""")
+B("C08-rollback-commits", "C08", "C08:R-C08.3:tx::write_tx::BaseTransaction::rollback", TXW,
+  """    #[expect(clippy::unused_self)]
+    pub(super) fn rollback(self) {}""",
+  """    pub(super) fn rollback(self) {
+        let _ = OwnedWriteBatch::new(self.db).commit();
+    }""")
+B("C02-workers-before-replay", "C02", "C02:R-C02.4:db::Database::recover", DB,
+  """        // Recover keyspaces
+        recover_keyspaces(&db, &meta_keyspace)?;
+""",
+  """        db.worker_pool.start(
+            db.config.worker_threads,
+            &db.supervisor,
+            &db.stats,
+            &PoisonDart::new(db.is_poisoned.clone()),
+            &db.active_thread_counter,
+        )?;
+
+        // Recover keyspaces
+        recover_keyspaces(&db, &meta_keyspace)?;
+""")
+BREAK[-1]["edits"].append(dict(file=DB, old="""        db.worker_pool.start(
+            db.config.worker_threads,
+            &db.supervisor,
+            &db.stats,
+            &PoisonDart::new(db.is_poisoned.clone()),
+            &db.active_thread_counter,
+        )?;
+
+        log::trace!("Database recovery successful");""", new="""        log::trace!("Database recovery successful");"""))
+B("C06-snapshot-at-generator", "C06", "C06:R-C06.3:snapshot_tracker::SnapshotTracker::open", TRACKER,
+  """        let _lock = self.gc_lock.read().expect("lock is poisoned");
+
+        let seqno = self.seqno.get();
+
+        self.data
+            .entry(seqno)""",
+  """        let _lock = self.gc_lock.read().expect("lock is poisoned");
+
+        let seqno = self.seqno.get() + 1;
+
+        self.data
+            .entry(seqno)""")
+B("C12-meta-row-little-endian", "C12", "C12:R-C12.6:meta_keyspace::MetaKeyspace::resolve_id", "src/meta_keyspace.rs",
+  "            builder[1..].copy_from_slice(&id.to_be_bytes());", "            builder[1..].copy_from_slice(&id.to_le_bytes());")
+E("EQ-rotate-id-read-under-separate-lock", KS,
+  """        let journal_writer = self.supervisor.journal.get_writer()?;
+        let active_memtable_id = self.tree.active_memtable().id();
+        self.inner_rotate_memtable(journal_writer, active_memtable_id)""",
+  """        let active_memtable_id = {
+            let _journal_writer = self.supervisor.journal.get_writer()?;
+            self.tree.active_memtable().id()
+        };
+        let journal_writer = self.supervisor.journal.get_writer()?;
+        self.inner_rotate_memtable(journal_writer, active_memtable_id)""")
+B("C13-batch-check-before-lock", "C13", "C13:R-C13.2:batch::WriteBatch::commit:check-after-lock", BATCH,
+  """        log::trace!("batch: Acquiring journal writer");
+        let mut journal_writer = self.db.supervisor.journal.get_writer()?;
+
+        // IMPORTANT: Check the poisoned flag after getting journal mutex, otherwise TOCTOU
+        if self.db.is_poisoned.is_poisoned() {
+            return Err(crate::Error::Poisoned);
+        }
+""",
+  """        if self.db.is_poisoned.is_poisoned() {
+            return Err(crate::Error::Poisoned);
+        }
+
+        log::trace!("batch: Acquiring journal writer");
+        let mut journal_writer = self.db.supervisor.journal.get_writer()?;
+""")
+B("C03-tx-commit-skips-second-keyspace", "C03", "C03:R-C03.5", TXW,
+  """        for (keyspace, memtable) in self.memtables {
+            let mut prev_key: Option<UserKey> = None;
+""",
+  """        for (keyspace, memtable) in self.memtables.into_iter().take(1) {
+            let mut prev_key: Option<UserKey> = None;
+""")
+B("C10-rotate-outside-lock", "C10", "C10:R-C10.3:worker_pool::worker_tick", WP,
+  """                let mut journal_writer = ctx.supervisor.journal.get_writer()?;
+
+                if journal_writer.pos()? > 64_000_000 {""",
+  """                let too_big = ctx.supervisor.journal.get_writer()?.pos()? > 64_000_000;
+                let mut journal_writer = ctx.supervisor.journal.get_writer()?;
+
+                if too_big {""")
